@@ -1,8 +1,19 @@
 import BigtreeModel.Proto
 import BigtreeModel.Plot
 /-! Driver handler for property C19 (Reingold–Tilford).
-`sib=<q> sub=<q> lvl=<q> xoff=<q> yoff=<q> T <tree>` with `<q>` = `num/den` or `num`
-→ `ok x,y x,y …` for every node in pre-order, each coordinate an exact rational `num/den`. -/
+`sib=<q> sub=<q> lvl=<q> xoff=<q> yoff=<q> [ops=<op;op;…>] [stat=1] T <tree>` with `<q>` = `num/den` or `num`.
+The tree is fresh (no node carries a shift). `ops` (default `L`) is a history on the same nodes:
+* `L`            — run `reingold_tilford` on the root; prints `x,y x,y …` (pre-order, exact rationals);
+* `D<addr>`      — detach the node at `<addr>` (`i.j.k`, child indices from the root);
+* `F<addr>:<sh>` — insert the fresh subtree `<sh>` as FIRST child of the node at `<addr>` (`r` = root);
+* `E<addr>:<sh>` — append the fresh subtree `<sh>` as LAST child;
+* `R<addr>`      — reverse the children of the node at `<addr>`;
+* `M<from>><to>` — detach the node at `<from>` and re-attach it as last child of the node at `<to>`
+                   (`<to>` is an address in the tree after the detachment);
+`<sh>` = nested parentheses, `()` a leaf. Output: `ok <layout 1> | <layout 2> | …`.
+With `stat=1` the output is `far=<n>`: the number of nodes (over all layouts) for which the
+maximal `_get_subtree_shift` over the left siblings is NOT attained at the nearest left sibling
+that needs a non-zero shift (instrumentation for the generator statistics only). -/
 namespace Drv.C19
 open Proto Plot
 
@@ -17,6 +28,101 @@ def parseRat (s : String) : Option Rat :=
 
 def showRat (r : Rat) : String := toString r.num ++ "/" ++ toString r.den
 
+def parseAddr (s : String) : Option (List Nat) :=
+  if s == "r" then some [] else (s.splitOn ".").mapM String.toNat?
+
+mutual
+partial def parseShape : List Char → Option (ST × List Char)
+  | '(' :: rest => do
+    let (cs, rest') ← parseShapes rest
+    pure (.node 0 cs, rest')
+  | _ => none
+partial def parseShapes : List Char → Option (List ST × List Char)
+  | ')' :: rest => some ([], rest)
+  | cs => do
+    let (t, rest) ← parseShape cs
+    let (ts, rest') ← parseShapes rest
+    pure (t :: ts, rest')
+end
+
+def parseFresh (s : String) : Option ST :=
+  match parseShape s.toList with
+  | some (t, []) => some t
+  | _ => none
+
+inductive Op where
+  | layout
+  | edit (f : ST → ST)
+
+def splitLast : List Nat → Option (List Nat × Nat)
+  | [] => none
+  | [i] => some ([], i)
+  | a :: rest => (splitLast rest).map fun (p, i) => (a :: p, i)
+
+def parseOp (s : String) : Option Op :=
+  match s.toList with
+  | ['L'] => some .layout
+  | 'D' :: rest => do
+    let addr ← parseAddr (String.ofList rest)
+    let (p, i) ← splitLast addr
+    pure (.edit (ST.detach p i))
+  | 'R' :: rest => do
+    let addr ← parseAddr (String.ofList rest)
+    pure (.edit (ST.reverseAt addr))
+  | 'M' :: rest =>
+    match (String.ofList rest).splitOn ">" with
+    | [a, b] => do
+      let (p, i) ← splitLast (← parseAddr a)
+      let to ← parseAddr b
+      pure (.edit (ST.move p i to))
+    | _ => none
+  | c :: rest =>
+    if c == 'F' || c == 'E' then
+      match (String.ofList rest).splitOn ":" with
+      | [a, sh] => do
+        let addr ← parseAddr a
+        let fresh ← parseFresh sh
+        pure (.edit (if c == 'F' then ST.insertFirst addr fresh else ST.insertLast addr fresh))
+      | _ => none
+    else none
+  | _ => none
+
+/-! instrumentation (statistics only): an annotated copy of the sibling loop that counts the
+    nodes whose maximal shift is not attained at the nearest colliding left sibling -/
+
+def shiftVals (sub : Rat) (node : PT) (ri : Nat) : List PT → Nat → List Rat
+  | [], _ => []
+  | l :: ls, idx => getSubtreeShift sub idx ri (l.height + 1) l [] node [] 0 0 0 true
+      :: shiftVals sub node ri ls (idx + 1)
+
+def isFar (vals : List Rat) : Bool :=
+  match vals.reverse.find? (· ≠ 0) with
+  | some v => vals.any (fun w => v < w)
+  | none => false
+
+mutual
+partial def statKids (P : Params) : ST → List PT × Nat
+  | .node _ cs => statGroup P cs [] (cs.map ST.shift) 0
+partial def statGroup (P : Params) : List ST → List PT → List Rat → Nat → List PT × Nat
+  | [], done, _, n => (done, n)
+  | t :: ts, done, pend, n =>
+    let (kids, k) := statKids P t
+    let node := place P.sib done (pend.headD 0) kids
+    let far := if isFar (shiftVals P.sub node done.length done 0) then 1 else 0
+    let st := shiftSiblings P.sub done node pend.tail
+    statGroup P ts st.1 st.2 (n + k + far)
+end
+
+def showLayout (f : FT) : String :=
+  " ".intercalate (f.coords.map fun (x, y) => showRat x ++ "," ++ showRat y)
+
+def run (P : Params) (stat : Bool) : List Op → ST → List String → Nat → List String × Nat
+  | [], _, acc, far => (acc.reverse, far)
+  | .layout :: ops, t, acc, far =>
+    if stat then run P stat ops (stored P t) acc (far + (statKids P t.clear).2)
+    else run P stat ops (stored P t) (showLayout (layoutS P t) :: acc) far
+  | .edit f :: ops, t, acc, far => run P stat ops (f t) acc far
+
 def handle (toks : List String) : String :=
   let r : Option String := do
     let sib ← parseRat (← kv toks "sib")
@@ -24,10 +130,13 @@ def handle (toks : List String) : String :=
     let lvl ← parseRat (← kv toks "lvl")
     let xoff ← parseRat (← kv toks "xoff")
     let yoff ← parseRat (← kv toks "yoff")
+    let ops ← ((kv toks "ops").getD "L").splitOn ";" |>.mapM parseOp
     let rest := (toks.dropWhile (· ≠ "T")).drop 1
     let (t, more) ← parseTree rest
     if !more.isEmpty then none
     let P : Params := { sib := sib, sub := sub, lvl := lvl, xoff := xoff, yoff := yoff }
-    pure ("ok " ++ " ".intercalate ((layout P t).coords.map fun (x, y) => showRat x ++ "," ++ showRat y))
+    let stat := (kv toks "stat") == some "1"
+    let (outs, far) := run P stat ops (ST.ofTree t) [] 0
+    if stat then pure s!"far={far}" else pure ("ok " ++ " | ".intercalate outs)
   r.getD "bad-op"
 end Drv.C19
